@@ -265,9 +265,9 @@ let rec elab (env : env) (s : Sexp.t) : expr * ty =
           | `Bind x, Some t -> add_var env x t, Some (cl x)
           | `Bind _, None -> ill "case %s has no payload" c
           | `Ignore, Some _ -> env, None
-          | `Ignore, None -> ill "case %s has no payload" c
+          | `Ignore, None -> env, None        (* fc accepts "| B _ ->" on a payload-less case: nothing is bound *)
           | `Nothing, None -> env, None
-          | `Nothing, Some _ -> ill "case %s needs a binder or _" c) in
+          | `Nothing, Some _ -> env, None) in (* "| A ->" on a payload case: same emission as "| A _ ->" *)
       let eb, tb = elab_block env' body in
       check_ty tb; ((cl c, bx), eb) in
     let arms' = List.map one arms in
